@@ -48,7 +48,7 @@ package l1infotreesync
 //@   sqltext "SELECT * FROM l1info_leaf WHERE block_num <= $1 ORDER BY block_num DESC, block_pos DESC LIMIT 1;"
 //@   requires p != nil && p.db != nil && p.log != nil
 //@   modifies nothing
-//@   ensures[block-0-refused] blockNum == 0 ==> result0 == nil && result1 == ErrNoBlock0
+//@   ensures[block-0-refused] blockNum == 0 ==> result0 == nil && isErr(result1, ErrNoBlock0)
 //@   ensures[unprocessed-block-refused] (result1 == nil) ==> l1LastProcessed >= blockNum
 //@   ensures[error-means-nothing] result1 != nil ==> result0 == nil
 //@   ensures[leaf-at-or-below-the-block] result1 == nil ==> result0 != nil && result0.BlockNumber <= blockNum
